@@ -4,6 +4,9 @@ import (
 	"bytes"
 	"context"
 	"fmt"
+	"strings"
+
+	"verif/peers"
 
 	"mosn.io/mosn/pkg/metrics"
 	"mosn.io/mosn/pkg/types"
@@ -22,6 +25,10 @@ func (w *Proxy) checkAll() {
 // ---- C01: forwarding fidelity (xprotocol, byte level) ----
 func (w *Proxy) checkC01() {
 	s := w.S
+	if w.P.Proto == "http1" {
+		w.checkC01H1()
+		return
+	}
 	for _, u := range w.ups {
 		if u.ParseErr != nil {
 			s.Violate("C01", "upstream_unparsable", "bytes MOSN wrote to %s do not form %s frames: %v", u.Host, w.codec.Name(), u.ParseErr)
@@ -76,13 +83,18 @@ func (w *Proxy) checkC02() {
 			s.Violate("C02", "downstream_unparsable", "bytes MOSN wrote to client %s do not form frames (interleaved or corrupt): %v", c.Name, c.ParseErr)
 		}
 	}
+	for _, c := range w.h1clients {
+		if c.ParseErr != nil {
+			s.Violate("C02", "downstream_unparsable", "bytes MOSN wrote to client %s are not HTTP/1 messages: %v", c.Name, c.ParseErr)
+		}
+	}
 	for _, st := range w.H.Stray {
 		s.Violate("C02", "stray_frame", "%s", st)
 	}
 	for _, r := range w.H.Reqs {
 		for _, rep := range r.Replies {
 			if rep.Tok == "" {
-				if rep.Parsed.Status == w.codec.SuccessStatus() {
+				if rep.Success {
 					s.Violate("C02", "anonymous_success", "req#%d got a success reply that carries no token (not produced by any upstream exchange)", r.Idx)
 				}
 				continue
@@ -96,7 +108,7 @@ func (w *Proxy) checkC02() {
 				s.Violate("C02", "cross_talk", "req#%d (client %s id %d) received the reply produced for req#%d", r.Idx, r.Client, r.ID, oi)
 				continue
 			}
-			if !bytes.HasPrefix(rep.Parsed.Body, []byte(r.Token)) {
+			if !bytes.HasPrefix(rep.Body, []byte(r.Token)) {
 				s.Violate("C02", "mixed_message", "req#%d: reply header carries its token but the body does not (header and body from different exchanges)", r.Idx)
 			}
 		}
@@ -198,4 +210,96 @@ func (w *Proxy) checkC10Idle() {
 		s.Violate("C10", "gauge:cluster.connection_active", "cluster connection_active = %d, live upstream connections = %d", v, tot)
 	}
 	_ = fmt.Sprint
+}
+
+// protocol-managed header names: may be added/changed by a proxy hop
+var h1Managed = map[string]bool{"host": true, "content-length": true, "transfer-encoding": true, "connection": true, "keep-alive": true, "date": true, "server": true}
+
+func h1HeaderDiff(sent, got *peers.H1Msg, allowExtra map[string]bool) string {
+	seen := map[string]bool{}
+	for _, kv := range sent.Headers {
+		k := strings.ToLower(kv.K)
+		if h1Managed[k] || seen[k] {
+			continue
+		}
+		seen[k] = true
+		want, _ := sent.GetAll(kv.K)
+		have, ok := got.GetAll(kv.K)
+		if !ok {
+			return fmt.Sprintf("header %q sent but not received", kv.K)
+		}
+		if want != have {
+			return fmt.Sprintf("header %q sent as %q, received as %q", kv.K, want, have)
+		}
+	}
+	for _, kv := range got.Headers {
+		k := strings.ToLower(kv.K)
+		if seen[k] || h1Managed[k] || allowExtra[k] {
+			continue
+		}
+		return fmt.Sprintf("header %q: %q received but never sent", kv.K, kv.V)
+	}
+	return ""
+}
+
+func (w *Proxy) checkC01H1() {
+	s := w.S
+	for _, u := range w.h1ups {
+		if u.ParseErr != nil {
+			s.Violate("C01", "upstream_unparsable", "bytes MOSN wrote to %s are not HTTP/1 requests: %v", u.Host, u.ParseErr)
+		}
+		for _, fr := range u.Unknown {
+			s.Violate("C01", "fabricated_or_corrupt_request", "upstream %s received a request that no client sent (%d bytes)", u.Host, len(fr))
+		}
+	}
+	for _, r := range w.H.Reqs {
+		for ai, up := range r.Upstream {
+			got := up.H
+			if got.Method != r.HReq.Method {
+				s.Violate("C01", "h1_method_changed", "req#%d attempt %d: method %q forwarded as %q", r.Idx, ai, r.HReq.Method, got.Method)
+			}
+			if got.Target != r.HReq.Target {
+				s.Violate("C01", "h1_target_changed:"+r.HReq.Target, "req#%d attempt %d: request-target %q forwarded as %q", r.Idx, ai, r.HReq.Target, got.Target)
+			}
+			if !bytes.Equal(got.Body, r.HReq.Body) {
+				s.Violate("C01", "h1_request_body_changed", "req#%d attempt %d: body of %d bytes forwarded as %d bytes (first diff at %d)", r.Idx, ai, len(r.HReq.Body), len(got.Body), firstDiff(r.HReq.Body, got.Body))
+			}
+			if d := h1HeaderDiff(r.HReq, got, nil); d != "" {
+				s.Violate("C01", "h1_request_header_changed", "req#%d attempt %d: %s", r.Idx, ai, d)
+			}
+		}
+		for _, rep := range r.Replies {
+			if rep.Tok != r.Token {
+				continue // MOSN-generated or cross-talk (C02)
+			}
+			ok := ""
+			matched := false
+			for _, up := range r.Upstream {
+				for _, raw := range up.Sent {
+					p := peers.H1Parser{}
+					p.Feed(raw)
+					sent := p.Next(true)
+					if sent == nil {
+						continue
+					}
+					d := ""
+					if sent.Status != rep.H.Status {
+						d = fmt.Sprintf("status %d delivered as %d", sent.Status, rep.H.Status)
+					} else if !bytes.Equal(sent.Body, rep.H.Body) {
+						d = fmt.Sprintf("body of %d bytes delivered as %d bytes (first diff at %d)", len(sent.Body), len(rep.H.Body), firstDiff(sent.Body, rep.H.Body))
+					} else {
+						d = h1HeaderDiff(sent, rep.H, nil)
+					}
+					if d == "" {
+						matched = true
+					} else {
+						ok = d
+					}
+				}
+			}
+			if !matched {
+				s.Violate("C01", "h1_response_changed", "req#%d: the delivered response differs from what the upstream sent: %s", r.Idx, ok)
+			}
+		}
+	}
 }
